@@ -1,0 +1,47 @@
+//go:build verif
+
+// Machine-checked contracts for this package (comment-only; compiled only with -tags verif,
+// and even then contributes no code).  Read by /verif/govc; see /verif/DESIGN.md.
+
+package hashring
+
+//@ -- ---------------------------------------------------------------- C45: ring membership bookkeeping
+//@ -- A key is a LIVE member when it is in members and not queued for the deferred sweep.  Insert and Remove
+//@ -- change exactly the addressed key's liveness (and value) whatever the history - re-inserting a key that
+//@ -- is queued for removal revives it with the new value.
+//@ spec macro hrOK(r *Ring) bool = r != nil && r.members != nil && r.deletedKeys != nil && (forall k string :: (k in r.deletedKeys) ==> (k in r.members))
+//@ spec macro hrLive(r *Ring, k string) bool = (k in r.members) && !(k in r.deletedKeys)
+//@ func (*Ring).Insert
+//@   property C45
+//@   option safety off
+//@   option stable map[string]V, map[string]struct{}, (*Ring).members, (*Ring).deletedKeys
+//@   requires hrOK(r)
+//@   ensures hrOK(r)
+//@   ensures forall j string :: hrLive(r, j) == (j == key || old(hrLive(r, j)))
+//@   ensures r.members[key] == value
+//@   ensures forall j string :: j != key && hrLive(r, j) ==> r.members[j] == old(r.members[j])
+//@ func (*Ring).Remove
+//@   property C45
+//@   option safety off
+//@   requires hrOK(r)
+//@   ensures hrOK(r)
+//@   ensures forall j string :: hrLive(r, j) == (j != key && old(hrLive(r, j)))
+//@   ensures forall j string :: hrLive(r, j) ==> r.members[j] == old(r.members[j])
+//@ func (*Ring).Len
+//@   property C45
+//@   requires hrOK(r)
+//@   ensures res == len(r.members) - len(r.deletedKeys)
+//@   assigns nothing
+//@ -- Lookup answers exactly when the ring has a live member, and performs the deferred sweep: afterwards the
+//@ -- member table holds exactly the keys that were live, with their values, and nothing is queued for removal.
+//@ func (*Ring).Lookup
+//@   property C45
+//@   option safety off
+//@   option stable map[string]V, map[string]struct{}, (*Ring).members, (*Ring).deletedKeys
+//@   requires hrOK(r)
+//@   ensures res1 == (old(len(r.members)) - old(len(r.deletedKeys)) != 0)
+//@   ensures res1 ==> hrOK(r) && (forall j string :: !(j in r.deletedKeys)) && (forall j string :: (j in r.members) == old(hrLive(r, j))) && (forall j string :: (j in r.members) ==> r.members[j] == old(r.members[j]))
+//@   ensures !res1 ==> (forall j string :: (j in r.members) == old(j in r.members)) && (forall j string :: (j in r.deletedKeys) == old(j in r.deletedKeys))
+//@   loop 1 invariant r.members == old(r.members) && r.deletedKeys == old(r.deletedKeys) && r.members != nil && r.deletedKeys != nil
+//@   loop 1 invariant forall j string :: (j in r.deletedKeys) == old(j in r.deletedKeys)
+//@   loop 1 invariant forall j string :: (j in r.members) == (old(j in r.members) && !(visited[j] && old(j in r.deletedKeys))) && ((j in r.members) ==> r.members[j] == old(r.members[j]))
